@@ -69,5 +69,8 @@ void set_deadlock_handler(const std::function<void()>& f);
 typedef int handle;
 handle spawn(const std::function<void()>& f);
 void join(handle h);
+// blocks (as a schedulable action, never really) until managed thread `thread_index` has finished its thread
+// function; does NOT pthread_join it (the program under test may still do that).  Trace: "point waited T<i>".
+void wait_exit(int thread_index);
 }  // namespace sched
 #endif
